@@ -38,9 +38,11 @@ type Scenario struct {
 	Env     func(w *World) []EnvEvent
 	Check   func(w *World, x *Exec) []Violation
 	Horizon int
-	FailOK  bool // offer "fail" outcomes for tasks in addition to "done"
-	NoTick  bool // never offer clock ticks (scenarios without timers)
-	Forced  bool // offer the cancellation of the forced-shutdown context as an environment event
+	FailOK  bool               // offer "fail" outcomes for tasks in addition to "done"
+	NoTick  bool               // never offer clock ticks (scenarios without timers)
+	Forced  bool               // offer the cancellation of the forced-shutdown context as an environment event
+	Bound   *int               // deviation bound override
+	Static  func() []Violation // checks that do not need an execution (run once per scenario)
 }
 
 type Violation struct {
@@ -160,22 +162,25 @@ func (e InfraError) Error() string { return e.Msg }
 
 // X1 explorer state
 type X1 struct {
-	Sc          *Scenario
-	Bound       int
-	cache       map[uint64]int8
-	Execs       int
-	Cuts        int
-	Steps       int
-	States      int // distinct HB keys
-	MaxDepth    int
-	BoundHit    bool // some alternative was skipped because of the deviation bound
-	Outcomes    map[string]int
-	Viol        []FoundViolation
-	Deadline    time.Time
-	TimedOut    bool
-	MaxExecs    int
-	Samples     []string
-	stopAtFirst bool
+	Sc                                      *Scenario
+	Bound                                   int
+	cache                                   map[uint64]int8
+	Execs                                   int
+	Cuts                                    int
+	Steps                                   int
+	States                                  int // distinct HB keys
+	MaxDepth                                int
+	BoundHit                                bool // some alternative was skipped because of the deviation bound
+	Outcomes                                map[string]int
+	Viol                                    []FoundViolation
+	Deadline                                time.Time
+	TimedOut                                bool
+	MaxExecs                                int
+	Samples                                 []string
+	stopAtFirst                             bool
+	AfterExec                               func(ex *Exec) []Violation
+	AfterClose                              func()
+	RaceReports, RaceInternal, RaceTeardown int
 }
 
 type FoundViolation struct {
@@ -326,8 +331,13 @@ func (x *X1) finish(ex *Exec) {
 		if x.Sc.Check != nil {
 			vs = append(vs, x.Sc.Check(w, ex)...)
 		}
+		if x.AfterExec != nil {
+			vs = append(vs, x.AfterExec(ex)...)
+		}
 		out := "none"
-		if w.lastDump != nil {
+		if vsched.RaceBuild {
+			out = w.lastDump.Short()
+		} else {
 			out = w.dump().Short()
 		}
 		x.Outcomes[out]++
@@ -348,6 +358,9 @@ func (x *X1) finish(ex *Exec) {
 		}
 	}
 	w.Close()
+	if x.AfterClose != nil {
+		x.AfterClose()
+	}
 }
 
 func (x *X1) explore(prefix []int, prefixPoints []point) {
